@@ -330,6 +330,8 @@ class Queue:
         SCHED.event("enqueue", SCHED.me().name, item)
 
     def get(self, block=True, timeout=None):
+        if block and timeout is not None and timeout < 0:
+            raise ValueError("'timeout' must be a non-negative number")      # as queue.Queue.get does
         timed_out = SCHED.park(("get",), cond=lambda: len(self.items) > 0,
                                deadline=None if timeout is None else round(SCHED.clock + timeout, 6))
         if self.items and not timed_out:
@@ -635,6 +637,22 @@ class TimeShim:
     @staticmethod
     def time():
         return SCHED.clock
+
+    @staticmethod
+    def monotonic():
+        return SCHED.clock
+
+    @staticmethod
+    def perf_counter():
+        return SCHED.clock
+
+    @staticmethod
+    def time_ns():
+        return int(SCHED.clock * 1e9)
+
+    @staticmethod
+    def monotonic_ns():
+        return int(SCHED.clock * 1e9)
 
     @staticmethod
     def sleep(x):
